@@ -11,7 +11,7 @@
 //           rm:<i>           destroy T_i          rd:<i>   destroy D_i
 //           ck:<i>           D_i.isTripped()
 //           pr:<i>:<k>       if (D_i.isTripped()) read datum k
-//           wt:<i>           while (!D_i.isTripped()) yield
+//           wt:<i>           poll D_i.isTripped() until it is true (bounded spinning, then a harness-level wait)
 //           w:<k>            write plain datum k (fresh value)     r:<k>  read plain datum k
 //   The prologue runs on the main thread (tid 0) before the logical threads start; after they have
 //   finished the main thread destroys every trigger still alive (ascending id), polls every detector
@@ -143,16 +143,25 @@ void do_op(World& w, const std::string& op)
             verif::emit("prd d" + std::to_string(k) + " " + std::to_string(w.data[k]));
         }
     } else if (o == "wt") {
+        // poll a few times (racing with the destruction), then wait at the harness level until the line
+        // has been written (no event; keeps the script terminating under unfair schedules) and poll again
         int i = num(1);
         std::string nm = "ck " + std::to_string(i);
-        for (;;) {
-            verif::emit("call " + nm);
-            bool v = w.D[i]->isTripped();
-            verif::emit("ret " + nm + (v ? " 1" : " 0"));
-            if (v) {
-                break;
+        bool v = false;
+        for (int n = 0; n < 3 && !v; ++n) {
+            if (n == 2) {
+                const auto* cell = w.D[i]->lineDetector.get();
+                verif::sched([cell] { return cell->raw() ? int(verif::EN) : int(verif::DIS); });
             }
-            std::this_thread::yield();
+            verif::emit("call " + nm);
+            v = w.D[i]->isTripped();
+            verif::emit("ret " + nm + (v ? " 1" : " 0"));
+            if (!v && n < 1) {
+                std::this_thread::yield();
+            }
+        }
+        if (!v) {
+            verif::fail("isTripped() is false although the line has been tripped");
         }
     } else if (o == "w") {
         int k = num(1);
@@ -525,6 +534,8 @@ std::vector<Script> tw_directed()
         // move assignment: the target's old line (e0) is NOT tripped, the source's line (e1) is
         parse("2;mkT:0:e0,mkT:1:e1,mkD:0:e0,mkD:1:e1,as:0:1,rm:1,ck:0,ck:1,rm:0,ck:0,ck:1;mkD:2:e0,mkD:3:e1,ck:2,ck:3,ck:2,ck:3"),
         parse("1;mkT:0:e0,mkD:0:e0,as:0:0,ck:0,rm:0,ck:0"),
+        // every combination of empty / bound operands of move construction and move assignment
+        parse("1;mkT:0:e0,mv:1:0,mv:2:0,as:0:2,as:0:1,mkT:3:e0,as:3:1,as:1:3,mkT:4:e0,as:4:1,rm:3,rm:2,rm:0,rm:4,rm:1;mkD:0:e0,ck:0,ck:0,ck:0,ck:0"),
         // publication: data written before the trigger dies, read after the line was seen tripped
         parse("1/mkT:0:e0.mkD:0:e0.mkD:1:e0;w:0,w:1,w:0,rm:0;wt:0,r:0,r:1;pr:1:0,pr:1:1,pr:1:0"),
         // two threads trip the same (shared) line; the datum was written by the prologue
